@@ -452,8 +452,8 @@ class Scenario(object):
 
 def tiers(tier):
     if tier == 'quick':
-        return [('dev0', Scenario(0), 6), ('dev1', Scenario(1, max_ctx=2), 5),
-                ('dev1-presub', Scenario(1, max_ctx=2, presub=PRESUB, kills=False), 5)]
+        return [('dev0', Scenario(0), 7), ('dev1', Scenario(1, max_ctx=2), 6),
+                ('dev1-presub', Scenario(1, max_ctx=2, presub=PRESUB, kills=False), 6)]
     return [('dev0', Scenario(0), 8), ('dev1', Scenario(1), 7),
             ('dev2', Scenario(2, max_ctx=2, kills=False), 6),
             ('dev2-presub', Scenario(2, max_ctx=2, presub=PRESUB, kills=False), 6)]
